@@ -72,7 +72,12 @@ func genC16(r *PRNG, tier string) *Scenario {
 		} else {
 			d.CtxTimeoutMs = int64(r.Pick([]int{300, 5000, 45000}))
 		}
-		switch r.Intn(4) {
+		switch r.Intn(5) {
+		case 4:
+			// a refusal whose body stops half way: reading it must stay under the handshake deadline
+			d.Backend.Kind = "byz"
+			d.Backend.Reply = Reply{Status: r.Pick([]int{403, 500, 200}), Accept: "good", Upgrade: []string{"websocket"}, Connection: []string{"Upgrade"},
+				BodyLen: r.Pick([]int{100, 2000}), BodySent: r.Pick([]int{1, 3, 50})}
 		case 0:
 			d.Backend.Kind = "silent"
 		case 1:
